@@ -9,7 +9,7 @@ from .drivers_ragged import rnd_lens, rnd_slice
 
 READ_KINDS = ["repr", "str", "iter", "tolist", "ravel", "sum", "nonzero", "ufunc", "colsum", "len", "shape", "size", "dtype", "lengths", "copy",
               "unique", "cumsum", "sort", "diff", "accumulate", "max", "mean", "argmax", "pad", "where", "concat", "colbroadcast", "zeros_like",
-              "colvalues", "getrow", "getelem", "rowcol", "any", "rowmean"]
+              "colvalues", "getrow", "getelem", "rowcol", "any", "rowmean", "pairs"]
 
 
 def _lens(ob):
